@@ -90,4 +90,18 @@ CHECKS = {
             {"pkg": "core", "run": "^TestC20Context$", "quick": 800, "thorough": 40000, "shards_thorough": 8},
         ],
     },
+    "C06": {
+        "level": "fault_enumeration",
+        "assumptions": ["allocation is measured as the TotalAlloc delta around one Unpack with a generous bound (16*limit + 16*len(input) + 24 MiB); announcements used for detection are >= 64 MiB",
+                        "decompression bombs (a frame within the read limit whose gzip payload inflates beyond it) are outside the generated classes",
+                        "liveness: 20 s bound + goroutine dump"],
+        "runs": [
+            {"pkg": "wire", "run": "^TestC06(Raw|JSON|PB|HTTP)Unpack$", "quick": 1500, "thorough": 60000, "shards_thorough": 8},
+            {"pkg": "wire", "run": "^TestC06HTTPAnnounce$", "quick": 300, "thorough": 5000, "shards_thorough": 2},
+            {"pkg": "wire", "run": "^TestC06TruncationSweep$", "quick": 1, "thorough": 1, "rapid": False},
+            {"pkg": "thriftw", "run": "^TestC06Thrift(Binary|Struct)Unpack$", "quick": 1000, "thorough": 30000, "shards_thorough": 4},
+            {"pkg": "thriftw", "run": "^TestC06Thrift(KnownProbes|TruncationSweep)$", "quick": 1, "thorough": 1, "rapid": False},
+            {"pkg": "core", "run": "^TestC06Session$", "quick": 800, "thorough": 40000, "shards_thorough": 8},
+        ],
+    },
 }
